@@ -264,11 +264,13 @@ namespace via
     /// Handle a disconnect on the underlying connection.
     void disconnected_handler()
     {
-      if (connection_->connected())
-      {
-        connection_->set_connected(false);
-        connection_->close();
-      }
+      // Note: an operation that had already completed when the connection
+      // was closed still reports it's result, ignore it.
+      if (!connection_->connected())
+        return;
+
+      connection_->set_connected(false);
+      connection_->close();
 
       if (disconnected_handler_)
         disconnected_handler_();
